@@ -90,7 +90,9 @@ ToksIn(t, si) == SxSetToks(FmtTexts[t], SxAllStyles[si])
 \* ------------------------------------------------------------------ comments
 CText(i) == " c" \o ToString(i)
 Specials == <<"", " // nested // twice", " \"quoted\" 'single' \\", " permit(principal, action, resource);", " if then else when unless in has like is",
-              "/ three slashes", " { [ (", " */ /* not block */", "//", " tab\there">>
+              "/ three slashes", " { [ (", " */ /* not block */", "//", " tab\there",
+              \* an odd number of double quotes in a comment (an inch mark, an unbalanced quote)
+              " a 5\" screen", "\"", " \"a\" and \"">>
 Cm(x) == <<"c", x>>
 Bl == <<"b">>
 ModeOf(i) == IF i % 2 = 0 THEN "own" ELSE "trail"
